@@ -165,22 +165,36 @@ def inline_instance(K, F, T, mapping):
     from pb_bss import permutation_alignment as pa
     mapping = np.array(mapping, dtype=np.int64).reshape(K, F)
 
+    calls = []
+
     class FixedAligner(pa._PermutationAlignment):
+        # the mapping belongs to the posteriors: the first consultation returns it, any further consultation (e.g. on the
+        # quadratic form) would get a different one
         def calculate_mapping(self, mask, *a, **k):
-            return mapping.copy()
+            calls.append(mask)
+            if len(calls) == 1:
+                return mapping.copy()
+            return np.roll(mapping, 1, axis=0)
 
     def make(B):
         return {'aff': B.real('a', (F, K, T), lo=0.0, dist=(0.0, 1.0)), 'qf': B.real('q', (F, K, T), lo=0.0, dist='pos')}
 
     def call(inp):
-        return mmu.apply_inline_permutation_alignment(inp['aff'], quadratic_form=inp['qf'], weight_constant_axis=(-3,),
-                                                      aligner=FixedAligner())
+        del calls[:]
+        res = mmu.apply_inline_permutation_alignment(inp['aff'], quadratic_form=inp['qf'], weight_constant_axis=(-3,),
+                                                     aligner=FixedAligner())
+        return res + (len(calls), calls[0] if calls else None) if isinstance(res, tuple) else res
 
     def ensures(sp, inp, out):
-        ok = isinstance(out, tuple) and len(out) == 2 and shape_of(out[0]) == (F, K, T) and shape_of(out[1]) == (F, K, T)
+        ok = isinstance(out, tuple) and len(out) == 4 and shape_of(out[0]) == (F, K, T) and shape_of(out[1]) == (F, K, T)
         yield 'returns-pair-of-shape-FKT', sp._f(ok)
         if not ok:
             return
+        yield 'aligner-consulted-once', sp._f(out[2] == 1)
+        first = out[3]
+        okf = shape_of(first) == (K, F, T)
+        yield 'aligner-consulted-on-the-posteriors', (sp.all(sp.eq(cells(first)[k, f, t], cells(inp['aff'])[f, k, t]) for f in range(F) for k in range(K) for t in range(T))
+                                                      if okf else sp._f(False))
         a2, q2, a, q = cells(out[0]), cells(out[1]), cells(inp['aff']), cells(inp['qf'])
         for f in range(F):
             for k in range(K):
